@@ -217,7 +217,8 @@ impl SharedMmap {
     }
 
     pub(crate) fn read(&self, offset: usize, dest: &mut [u8]) {
-        debug_assert!(offset + dest.len() <= self.storage.len());
+        // a range past the end of the file is defined (zeros, see StorageImpl::read): damaged
+        // cursors and length fields must not panic in debug builds either
         #[cfg(walrus_verif)]
         crate::wal::verif::load(&self.vpath, offset, dest.len());
         self.storage.read(offset, dest);
